@@ -180,7 +180,8 @@ func parseTarget(raw string, defaultPort int, wantIPv6 bool) (netip.AddrPort, er
 		found := false
 		for _, r := range ips {
 			if wantIPv6 {
-				if r.To16() != nil {
+				// To16() is non-nil for IPv4 addresses as well
+				if r.To4() == nil && r.To16() != nil {
 					ip = netip.MustParseAddr(r.String())
 					found = true
 					break
